@@ -35,7 +35,9 @@ CFG = dict(
              "after a crash, and twice, then re-run; the status-flip UPDATE and each DELETE of Discard failing likewise; batch 'relog': "
              "a ref carrying two reflog entries with the transaction id before Commit; batch 'cli': the commands on a repository "
              "directory (>= 2 staged branches; quick 2 configurations, thorough ~45) with every SQL-statement fault then re-run "
-             "through the command. distinct = distinct case text; non-trivial = "
+             "through the command; batch 'writer': an ORDINARY commit lands on a staged branch between an interrupted Commit and its "
+             "re-run (after a failed status flip / a crash before it = all landed; none landed; single staged branch at every cut), "
+             "package level and through the commands, oracle class tx-commit-duplicated (C14_landed_branch_untouched). distinct = distinct case text; non-trivial = "
              ">=1 staged branch, transaction exists, >=2 ops",
         trusted=["harness/c14.go fault-injecting ref.Store/objects.Store wrappers (fail the chosen call without touching the "
                  "underlying store); commit identity projected to (table id, #transaction prefixes, parent chain); which "
